@@ -589,3 +589,105 @@ Fixpoint run_loader (cur : cfg_text) (h : list lop) : list (cfg_text * doc * lis
   end.
 (* a fresh instance *)
 Definition loader_history (h : list lop) := run_loader None h.
+
+(** * emit_js since /repo 539df4b: a spread of a fragment defined nowhere in the resolved document is an
+    error ([LoaderError::FragmentNotDefined], emit_js returns false), no module is produced.
+    [spreads] = the fragment names spread in the resolved document, in the order
+    [find_undefined_fragment_spread] visits them (definitions in order, selection sets depth first). *)
+Fixpoint first_undefined (defined : list str) (spreads : list str) : option str :=
+  match spreads with
+  | [] => None
+  | x :: r => if existsb (str_eqb x) defined then first_undefined defined r else Some x
+  end.
+Definition undefined_spread (d : doc) (spreads : list str) : option str :=
+  first_undefined (frag_names (defs d)) spreads.
+
+Inductive lop2 :=
+| L2Load (c : cfg_text)
+| L2Emit (d : doc) (B : list defbody) (spreads : list str).
+Inductive emission := EModule (ops : list wop) | EError (fragment : str).
+
+Definition emit2 (cur : cfg_text) (d : doc) (B : list defbody) (spreads : list str) : emission :=
+  match undefined_spread d spreads with
+  | Some n => EError n
+  | None => EModule (js_of_config cur (loader_view d) B)
+  end.
+Fixpoint run_loader2 (cur : cfg_text) (h : list lop2) : list (cfg_text * doc * list defbody * emission) :=
+  match h with
+  | [] => []
+  | L2Load c :: r => run_loader2 c r
+  | L2Emit d B sp :: r => (cur, d, B, emit2 cur d B sp) :: run_loader2 cur r
+  end.
+Definition failing_emit (x : lop2) : bool :=
+  match x with L2Emit d _ sp => match undefined_spread d sp with Some _ => true | None => false end | L2Load _ => false end.
+Definition is_module (e : cfg_text * doc * list defbody * emission) : bool :=
+  match e with (_, _, _, EModule _) => true | _ => false end.
+
+(** * When do two definitions get the same variable name?  (the class colliding-variable-names, structurally) *)
+
+Fixpoint prefixb (a b : str) : bool :=
+  match a, b with
+  | [], _ => true
+  | x :: a', y :: b' => N.eqb x y && prefixb a' b'
+  | _ :: _, [] => false
+  end.
+Definition is_suffixb (a b : str) : bool := prefixb (rev a) (rev b).
+(* x ++ a = y ++ b is possible for some x, y iff one of a, b is a suffix of the other *)
+Definition suffix_related (a b : str) : bool := is_suffixb a b || is_suffixb b a.
+
+(* capitalize a = capitalize b *)
+Definition eq_mod_first_case (a b : str) : bool :=
+  match a, b with
+  | [], [] => true
+  | x :: a', y :: b' => N.eqb (upper_ascii x) (upper_ascii y) && str_eqb a' b'
+  | _, _ => false
+  end.
+
+Definition opkind_eq (a b : opkind) : bool :=
+  match a, b with
+  | KQuery, KQuery | KMutation, KMutation | KSubscription, KSubscription => true
+  | _, _ => false
+  end.
+Definition raw_name (name : option (str * pos)) : str := match name with Some (n, _) => n | None => [] end.
+
+Definition collides (o : base_opts) (x y : def) : bool :=
+  match x, y with
+  | OpDef k1 n1 _ _, OpDef k2 n2 _ _ =>
+      if opkind_eq k1 k2 then
+        (if capitalize_operation_names o then eq_mod_first_case (raw_name n1) (raw_name n2)
+         else str_eqb (raw_name n1) (raw_name n2))
+      else suffix_related (op_suffix o k1) (op_suffix o k2)
+           && str_eqb (operation_var o k1 n1) (operation_var o k2 n2)
+  | OpDef k n _ _, FragDef f _ => str_eqb (operation_var o k n) (fragment_var o f)
+  | FragDef f _, OpDef k n _ _ => str_eqb (fragment_var o f) (operation_var o k n)
+  | FragDef f1 _, FragDef f2 _ => str_eqb f1 f2
+  end.
+
+Fixpoint pairwise_exists {A} (f : A -> A -> bool) (l : list A) : bool :=
+  match l with
+  | [] => false
+  | x :: r => existsb (f x) r || pairwise_exists f r
+  end.
+Definition has_collision (o : base_opts) (d : doc) : bool := pairwise_exists (collides o) (defs d).
+
+(** * The default-export rule, read off the configuration text *)
+Definition cfg_default_flag (c : cfg_text) : bool :=
+  match c with
+  | Some g => match gt_export g with
+              | Some e => match et_default e with Some b => b | None => true end
+              | None => true
+              end
+  | None => true
+  end.
+Definition expected_default_names (o : base_opts) (d : doc) : list str :=
+  if default_export_for_operation o && single_op d then map (var_name o) (filter is_op (defs d)) else [].
+
+(** the executable description of the class under the default options *)
+Definition collides_default (x y : def) : bool :=
+  match x, y with
+  | OpDef k1 n1 _ _, OpDef k2 n2 _ _ => opkind_eq k1 k2 && eq_mod_first_case (raw_name n1) (raw_name n2)
+  | OpDef k n _ _, FragDef f _ | FragDef f _, OpDef k n _ _ =>
+      str_eqb f (capitalize (raw_name n) ++ op_suffix base_default k)
+  | FragDef f1 _, FragDef f2 _ => str_eqb f1 f2
+  end.
+
